@@ -30,6 +30,17 @@ CLAIMS = {
              'src/elements/time.cpp is hand-written and tied by running the extracted model and libadm on about two '
              'million cases per quick run; an independent Python formatter/recogniser is the oracle on libadm.',
         design='8 C15'),
+    'C06': dict(
+        technique='Rocq proof of acyclicity as an invariant of every API call of the heap model + plans regenerated from '
+                  'src/document.cpp + extracted-model/libadm differential run',
+        text='Theorems (Props/Properties_C06.v): for every history of API calls (any length, any number of elements and '
+             'documents, continuing past exceptions) the audioObject, complementary-object and nested-pack graphs of the '
+             'model are acyclic; the call that would close a cycle returns the same state and the cycle exception; the '
+             'recursive guard is sound for every fuel and terminates on acyclic states. The model (Heap/Exec.v) interprets '
+             'the add/remove plans regenerated from src/document.cpp and is tied to libadm by comparing full snapshots '
+             'after every call of generated histories; a DFS on libadm\'s own snapshots is the oracle. Parsed files and '
+             'termination of Document::add / route tracing are covered by C07/C18 work, not yet by theorems here.',
+        design='8 C06'),
 }
 
 NOT_YET = {}
